@@ -15,7 +15,7 @@ def preds_of(g, acc):
     if g is None: return
     k = g[0]
     if k == 'gc': acc.add((g[1][1][0][1], len(g[1][1]) - 1))
-    elif k in ('gand', 'gor', 'gnot'):
+    elif k in ('gand', 'gor', 'gnot', 'gtime'):
         for x in g[1]: preds_of(x, acc)
 
 
